@@ -22,6 +22,8 @@ func main() {
 	switch os.Args[1] {
 	case "C07":
 		msg, err = props.C07FreeRun(n)
+	case "C08":
+		msg, err = props.C08FreeRun(n)
 	default:
 		err = fmt.Errorf("unknown harness %s", os.Args[1])
 	}
